@@ -307,6 +307,10 @@ func histories(r *lib.Run, rng *lib.Rand) (files []savedFile) {
 			special = "resubnet"
 		case 11:
 			special = "rediscover"
+		case 13:
+			// expiry is persisted state: ACK, expiry moved back to +10 min (hook) and saved by another client's ACK,
+			// renewal (+4 h, must be saved), restart, MinuteTicker(+1 h), renewal, DISCOVER by another client
+			special = "renew-expiry"
 		case 12:
 			// netfilter prefix WIDER than the home prefix: net2 is not inside net1 (Config.New checks the address only)
 			special = "nf-wider"
@@ -370,6 +374,9 @@ func histories(r *lib.Run, rng *lib.Rand) (files []savedFile) {
 		if short {
 			depth = 1
 		}
+		if special == "renew-expiry" {
+			depth = 3
+		}
 		classes := map[string]bool{}
 		stale := map[bindingT]bool{}
 		var rebindingKept []bindingT // bindings the file rightly keeps for clients that are re-negotiating (state discover)
@@ -380,7 +387,14 @@ func histories(r *lib.Run, rng *lib.Rand) (files []savedFile) {
 				cl, k = clients[0], 0
 			}
 			opName := "acquire"
-			if step == 1 {
+			if special == "renew-expiry" && step == 1 {
+				sv.h.VerifSetLeaseExpiry(clients[0].key(), time.Now().Add(10*time.Minute)) // not a library path: saved by the next ACK
+				cl, k = clients[1], 0
+			}
+			if special == "renew-expiry" && step == 2 {
+				cl, k = clients[0], 7
+			}
+			if step == 1 && special != "renew-expiry" {
 				if b, bound := acked[lib.Hex(clients[0].key())]; bound {
 					cl = clients[0]
 					a := tokAddr(b.ip)
@@ -481,30 +495,15 @@ func histories(r *lib.Run, rng *lib.Rand) (files []savedFile) {
 				if ok {
 					acked[lib.Hex(cl.key())] = bindingT{lib.Hex(cl.key()), lib.Hex(cl.mac), addrTok(got)}
 					classes["acquire"] = true
-					// saveConfig ran inside the ACK: the file against the table as it is now
-					txt, _ := os.ReadFile(fname)
-					toks := docTokens(txt)
-					obs := "unreadable"
-					if toks[0] != "docok" && !sumReported {
-						sumReported = true
-						r.Viol("save-without-valid-checksum", "saveConfig wrote a lease file whose integrity verdict is "+toks[0], "")
-					}
-					if isDoc(toks[0]) {
-						obs = "-"
-						if len(toks) > 3 {
-							recs := append([]string{}, toks[3:]...)
-							sort.Slice(recs, func(i, j int) bool {
-								return bytes.Compare(lib.UnHex(strings.SplitN(recs[i], ",", 2)[0]), lib.UnHex(strings.SplitN(recs[j], ",", 2)[0])) < 0
-							})
-							obs = strings.Join(recs, ";")
-						}
-					}
-					r.Case("save", tableTokens(sv.h.VerifLeases()), obs)
+					saveCase(r, sv, fname)
 				}
 			case k < 8: // renew an acknowledged binding
 				opName = "renew"
 				if b, ok := acked[lib.Hex(cl.key())]; ok {
 					mt, _ := sv.renew(cl, tokAddr(b.ip))
+					if mt == 5 { // the renewed expiry must be in the file: table (incl. expiry) against file
+						saveCase(r, sv, fname)
+					}
 					classes["renew"] = true
 					r.Stat(fmt.Sprintf("hist.renew-before-restart.reply%d", mt), 1)
 				}
@@ -533,6 +532,12 @@ func histories(r *lib.Run, rng *lib.Rand) (files []savedFile) {
 		}
 		if !sameBindings(ackedTable, ackedSeen) {
 			r.Viol("hist-acked-vs-table", "ACK frames seen "+showBindings(ackedSeen)+" but allocated leases are "+showBindings(ackedTable), "")
+		}
+		expBefore := map[string]string{} // client id -> expiry of its acknowledged lease, as the table has it before the restart
+		for _, l := range sv.h.VerifLeases() {
+			if l.State == dhcp.StateAllocated {
+				expBefore[lib.Hex(l.ClientID)] = timeZ(l.DHCPExpiry)
+			}
 		}
 		// restart: a NEW session (empty host table, as after a process restart); the capture state may have changed
 		text, _ := os.ReadFile(fname)
@@ -586,6 +591,20 @@ func histories(r *lib.Run, rng *lib.Rand) (files []savedFile) {
 				}
 			}
 			r.Viol(key, "acknowledged "+showBindings(ackedSeen)+" restored "+showBindings(b1.bindings), "newt "+c.tok()+" "+capTok2+" "+lib.Hex(text)+" "+strings.Join(toks, " "))
+		}
+		// the restored expiry is the last acknowledged one
+		if f := strings.Fields(b1.obs); len(f) == 4 && f[0] == "ok" && f[3] != "-" && len(stale) == 0 {
+			for _, l := range strings.Split(f[3], ";") {
+				q := strings.Split(l, ",")
+				if e, ok := expBefore[q[0]]; ok && e != q[4] {
+					r.Viol("restart-expiry-differs", fmt.Sprintf("client %s: the table had expiry %s before the restart, the restored lease has %s", q[0], e, q[4]), "")
+				}
+			}
+		}
+		if b1.h != nil && special == "renew-expiry" {
+			// one hour later: between the expiry saved before the renewal (+10 min) and the renewed one (+4 h)
+			b1.h.MinuteTicker(time.Now().Add(time.Hour))
+			r.Stat("hist.tick-after-restart", 1)
 		}
 		if b1.h != nil {
 			// keeps serving: every restored binding is renewed with an ACK for the same address, and a new
@@ -727,10 +746,12 @@ func checkDisk(r *lib.Run, sv *serverT, fname, op string, prev map[bindingT]bool
 		return prev, nil
 	}
 	disk := map[bindingT]bool{}
+	diskExp := map[bindingT]string{}
 	for _, t := range toks[3:] {
 		f := strings.Split(t, ",")
 		if f[1] == "2" {
 			disk[bindingT{f[0], f[2], f[3]}] = true
+			diskExp[bindingT{f[0], f[2], f[3]}] = f[4]
 		}
 	}
 	mem := map[bindingT]bool{}
@@ -740,6 +761,13 @@ func checkDisk(r *lib.Run, sv *serverT, fname, op string, prev map[bindingT]bool
 		switch l.State {
 		case dhcp.StateAllocated:
 			mem[b] = true
+			// the expiry is persisted state too: a renewal that is not saved would be forgotten by a restart
+			if e := timeZ(l.DHCPExpiry); disk[b] && diskExp[b] != e {
+				r.Stat("hist.disk.expiry-differs-after-"+op, 1)
+				if _, dup := staleReported.LoadOrStore("exp-"+op, true); !dup {
+					r.Viol("file-expiry-stale-after-"+op, fmt.Sprintf("after %s: %v expires at %s in the table but at %s in the lease file: a restart forgets the renewal", op, b, e, diskExp[b]), "")
+				}
+			}
 		case dhcp.StateDiscover:
 			rebinding[b] = true
 		}
@@ -770,4 +798,26 @@ func checkDisk(r *lib.Run, sv *serverT, fname, op string, prev map[bindingT]bool
 		}
 	}
 	return stale, kept
+}
+
+// saveCase: saveConfig ran inside an ACK: the file (records incl. their expiry) against the table as it is now
+func saveCase(r *lib.Run, sv *serverT, fname string) {
+	txt, _ := os.ReadFile(fname)
+	toks := docTokens(txt)
+	if toks[0] != "docok" && !sumReported {
+		sumReported = true
+		r.Viol("save-without-valid-checksum", "saveConfig wrote a lease file whose integrity verdict is "+toks[0], "")
+	}
+	obs := "unreadable"
+	if isDoc(toks[0]) {
+		obs = "-"
+		if len(toks) > 3 {
+			recs := append([]string{}, toks[3:]...)
+			sort.Slice(recs, func(i, j int) bool {
+				return bytes.Compare(lib.UnHex(strings.SplitN(recs[i], ",", 2)[0]), lib.UnHex(strings.SplitN(recs[j], ",", 2)[0])) < 0
+			})
+			obs = strings.Join(recs, ";")
+		}
+	}
+	r.Case("save", tableTokens(sv.h.VerifLeases()), obs)
 }
